@@ -1644,6 +1644,9 @@ func (cs *ConsensusState) ValidateBlock(block *types.Block) error {
 	if !s.Validators.HasAddress(block.ProposerAddress) {
 		return fmt.Errorf("Block.Header.ProposerAddress, %X, is not a validator", block.ProposerAddress)
 	}
+	if !bytes.Equal(block.ValidatorsHash, s.Validators.Hash()) {
+		return fmt.Errorf("Wrong Block.Header.ValidatorsHash. Expected %X, got %X", s.Validators.Hash(), block.ValidatorsHash)
+	}
 
 	// Validate block LastCommit.
 	if block.Height == 1 {
